@@ -21,6 +21,12 @@ Section NonSingleton.
     destruct (output_desc (p_descs p) d k); [destruct (out_is_nil (ds_reg d) k && life_eqb (ds_life d) Singleton); apply IH; [exact Hl|exact H|exact Hl|apply ns_store; assumption]|].
     apply IH; [exact Hl|]. unfold drop_output. destruct (ds_life d); [congruence| |]; auto.
   Qed.
+  Lemma ns_drop_only ks : forall p h d inv, ds_life d <> Singleton -> P p -> P (drop_only p h d inv ks).
+  Proof.
+    induction ks as [|k rest IH]; intros p h d inv Hl H; cbn [drop_only]; [exact H|].
+    destruct (output_desc (p_descs p) d k); [apply IH; assumption|].
+    apply IH; [exact Hl|]. unfold drop_output. destruct (ds_life d); [congruence| |]; auto.
+  Qed.
 
   Section WithRec.
     Variable recd : rstate -> nat -> desc -> rstate * rres.
@@ -45,8 +51,9 @@ Section NonSingleton.
         destruct (args_loop recd rs h inobj ps0 []) as [rs1 [args|e]]; cbn [fst] in *; [|exact H1].
         destruct (cancels (ds_reg d) (get_inv (rs_invs rs1) (r_id (ds_reg d))));
         (destruct (effective_outcome (ds_reg d) (get_inv (rs_invs rs1) (r_id (ds_reg d)))); cbn [fst]; try exact H1;
+        match goal with |- context [stores_any ?a ?b ?c] => destruct (stores_any a b c) end; cbn [fst];
         unfold Prs, with_p, log; cbn [rs_p];
-        apply ns_fan_out; assumption).
+        [apply ns_fan_out|apply ns_drop_only]; assumption).
     Qed.
   End WithRec.
 
@@ -69,6 +76,7 @@ Section NonSingleton.
   Proof.
     induction ds as [|d ds IH]; intros Hf rs h H; cbn [run_inits]; [exact H|].
     inversion Hf as [|x l Hd Hrest]; subst.
+    destruct (lookup_i (sc_cache (get_scope (rs_p rs) h)) (ds_ident d)); [apply IH; assumption|].
     assert (Hl : ds_life d <> Singleton).
     { unfold is_initializer in Hd. apply andb_prop in Hd. destruct Hd as [Hd _]. destruct (ds_life d); cbn in Hd; congruence. }
     assert (H1 : Prs P (fst (create_top rs h d))) by (unfold create_top; apply ns_create; auto using ns_resolve).
